@@ -230,6 +230,14 @@ fn run_vidya(c: &ValStream, st: &mut Stats) -> CaseResult {
 			prev_out = x;
 			continue;
 		}
+		if ch[lo..=t].iter().all(|q| *q == 0.0) {
+			// no change at all inside the window: the documented output is the input itself
+			ensure!(got == x, "C03:Vidya:flat-window", "Vidya({}) step {}: all of the last {} changes are zero, output {:e} expected the input {:e}", n, t, n, got, x);
+			prev_out = x;
+			err = 0.0;
+			st.count("flat_window_steps_after_movement", 1);
+			continue;
+		}
 		if up <= 2.0 * a_sum && dn <= 2.0 * a_sum {
 			// the all-zero test of the recurrence is ambiguous (sums within their allowance of 0):
 			// the output must still be an average of x and the previous output
